@@ -26,7 +26,7 @@ CHECKS = {
         "model_checking",
         "the same bounded-exhaustive test enumeration; every reported counterexample is re-read independently from the solver's reply files, re-encoded to calldata and executed on a reference EVM",
         "Every failing test of the hash-free part of the C03 grammar (incl. the guards that need refinement: mul, div, mod, sdiv, exp) is run end to end with three solver syntaxes (yices decimal (_ bvN W), yices #b, z3 #x) "
-        "and --dump-smt-directory. Dynamic-parameter tests also run with a single length candidate per parameter, and two different contracts with the same test names are run into one --dump-smt-directory. Every model halmos reports must equal an independent s-expression read of one of the solver replies on disk, the printed Counterexample lines must show those values, every sat reply on "
+        "and --dump-smt-directory. Dynamic-parameter tests also run with a single length candidate per parameter, and two different contracts with the same test names are run into one --dump-smt-directory. Every model halmos reports must equal an independent s-expression read of one of the solver replies on disk, the printed Counterexample lines must have a line for every variable of the model and show those values, every sat reply on "
         "disk is re-read with halmos's parser and compared, a reply that interprets an f_evm_ abstraction must not be labelled valid, and every model labelled valid is re-encoded (ABI encoder written here) and executed on the "
         "reference EVM from the reference post-setUp state: it must end in the reported assertion failure.",
         "Trusted: mc/refevm.py, mc/refcheats.py, the s-expression reader and ABI encoder in props/c04_cex.py / mc/testgen.py. Tests whose solver call times out give no model and make no claim.",
@@ -53,7 +53,7 @@ CHECKS = {
         "out-of-bounds RETURNDATACOPY/STOP) is assembled into one contract per node. Each node returns a fixed-layout record of what it observes "
         "(CALLER, ORIGIN, ADDRESS, CALLVALUE, storage, transient storage, balance, child success flags, RETURNDATASIZE and child records) and the root "
         "finally dumps storage/transient/balance/code of every account; the whole record must equal the reference EVM's for x in {0,1,balance,balance+1}. "
-        "Further families: callees whose outcome branches on the symbolic input with caller writes after the call, value-bearing self-calls, callees that return or revert with fewer bytes than the caller's pre-filled return window, static frames with each single effect (SSTORE, TSTORE or LOG alone must fail the frame), storage and transient-storage reads of the caller between a call and RETURNDATASIZE (the return-data buffer survives them), two creations at the same address (same CREATE2 salt and init code that reverts iff it receives no value: a failed creation must leave no account behind, a successful one makes the second collide). Stuck paths and uncovered inputs are violations too.",
+        "Further families: callees whose outcome branches on the symbolic input with caller writes after the call, value-bearing self-calls, callees that return or revert with fewer bytes than the caller's pre-filled return window, value-bearing CALL (must fail the frame) and CALLCODE (legal) under a STATICCALL, directly and through CALL / DELEGATECALL frames; a symbolic address that a failing frame resolves to an account it has just created and that the caller then calls / EXTCODESIZEs (36 programs x 6 addresses); static frames with each single effect (SSTORE, TSTORE or LOG alone must fail the frame), storage and transient-storage reads of the caller between a call and RETURNDATASIZE (the return-data buffer survives them), two creations at the same address (same CREATE2 salt and init code that reverts iff it receives no value: a failed creation must leave no account behind, a successful one makes the second collide). Stuck paths and uncovered inputs are violations too.",
         "Trusted: mc/refevm.py call/create semantics (Appendix B.1), mc/calltree.py generator. Created addresses are abstract (taken from halmos's trace, "
         "consistency checked through later reads).",
         "DESIGN.md §4 C09",
@@ -63,9 +63,9 @@ CHECKS = {
         "model_checking",
         "bounded-exhaustive enumeration of all programs of a statement grammar, each run once by the real SEVM.run; every reported path evaluated on every input of a colliding finite grid and compared with a reference EVM",
         "Every program of <= L statements (quick L=2 over a 122-statement alphabet: arithmetic, memory, storage/transient storage with hashed and "
-        "symbolic locations, keccak, logs, copies, branches incl. comparisons of a hash with itself plus a constant, symbolic-address EXTCODE*/BALANCE/CALL, TSTORE inside a branch body, while / do-while loops on a symbolic bound (the paths reported under the loop bound must be exact; coverage is not demanded where halmos flags the bound), terminators; thorough adds L=3 over a 39-statement alphabet) in both storage layouts is "
+        "symbolic locations, keccak, logs, copies, branches incl. comparisons of a hash with itself plus a constant, symbolic-address EXTCODE*/BALANCE/CALL, TSTORE inside a branch body, while / do-while loops on a symbolic bound (the paths reported under the loop bound must be exact; coverage is not demanded where halmos flags the bound), calls whose output area lies beyond the end of memory, RETURNDATACOPY from non-zero source offsets, terminators; thorough adds L=3 over a 39-statement alphabet) in both storage layouts is "
         "executed symbolically once. For every input of the grid (x,y in 6 boundary values colliding with the grammar's constants, callvalue, caller, "
-        "balances) and every reported non-stuck path whose constraints evaluate to true, the claimed error kind, return data (whole memory + probes "
+        "balances up to exactly 2^128) and every reported non-stuck path whose constraints evaluate to true, the claimed error kind, return data (whole memory + probes "
         "of every touched slot) and logs must equal the reference EVM's run of the same bytecode. Each path is also evaluated under a valuation in which every initial storage/balance array that must read as zero holds a non-zero value: a path that is still satisfied reads such an array without its zero-initialisation axiom and must still agree with the EVM.",
         "Trusted: mc/refevm.py, mc/symeval.py (standard interpretation of keccak and f_evm_*). Documented halmos modelling assumptions are inputs to the "
         "oracle. Claimed for the stated grammar and depths only; calls/creations are covered by C09.",
@@ -79,7 +79,7 @@ CHECKS = {
         "for programs with <= 8 calls) is executed on the real SEVM.run. Oracles on every run: each input of the grid is covered by the constraints of "
         "some reported (or stuck = flagged) path; every Exec.check that answered unsat is re-examined (no grid input satisfies path conditions AND the "
         "rejected condition - pins quick_custom_check, select's store skipping, axioms); and under deviations the end states must still agree with the "
-        "reference EVM (an `unknown` treated as a proof surfaces as a wrong end state).",
+        "reference EVM (an `unknown` treated as a proof surfaces as a wrong end state). Under --symbolic-jump three programs jump to a symbolic destination (calldata word with 2 or 3 valid destinations; a truth value ISZERO(x) with pc 1 a JUMPDEST): every valid destination and the invalid-jump outcome must be covered.",
         "Trusted: as C01. The seam is halmos.sevm.Path.check rebound in the harness process (no source hook). Coverage is only demanded for inputs the "
         "reference EVM can execute and that satisfy halmos's documented assumptions.",
         "DESIGN.md §4 C02",
@@ -89,8 +89,8 @@ CHECKS = {
         "model_checking",
         "bounded-exhaustive enumeration of (per-path outcome vector x solver reply vector x --early-exit x --cache-solver x completion order x reply-delivery order) for a generated k-path test, each executed by the real run_contract / _main with a scripted solver and compared with a reference verdict function",
         "A generated test with k <= 2 (thorough 3) guarded paths plus a default path; each path ends in success, revert, Panic(1), the DSTest fail flag or an unsupported opcode (stuck). The reply to each path's query is scripted from {sat + model, sat + model interpreting an abstraction followed by the refined query's reply, unsat (with an unsat core when the "
-        "query names its assertions), unsat with an empty core, unknown, time limit expired, empty output, garbage, non-zero exit with sat, crash} (quick: 8 of them), with and without --early-exit and --cache-solver. Concurrent queries are completed in every order (--solver-threads = number of queries, delayed replies), and for single-query tests the done-callback of the solver future is additionally delayed (callbacks-last), and for tests with a stuck path the two orders `replies delivered "
-        "before / after the main thread confirms the stuck path` are both taken. The TestResult exit code must equal the reference verdict FAIL > ERROR > TIMEOUT > ERROR(stuck) > ERROR(all reverted) > PASS computed from the collection of outcomes alone; through _main (stub forge) the process exit code is non-zero iff some selected test did not pass, also with a second contract in the project (processed before or after) whose only test passes, or whose setUp() reverts so that its test yields no result at all.",
+        "query names its assertions), unsat with an empty core, unknown, time limit expired, empty output, garbage, non-zero exit with sat, crash, the solver cannot be started, a solver that is still printing its model when --early-exit cancels it (what it had written is not an answer: valid counterexamples <= complete sat answers)} (quick: 8 of them plus the last two in dedicated cases), with and without --early-exit and --cache-solver. Concurrent queries are completed in every order (--solver-threads = number of queries, delayed replies), and for single-query tests the done-callback of the solver future is additionally delayed (callbacks-last), and for tests with a stuck path the two orders `replies delivered "
+        "before / after the main thread confirms the stuck path` are both taken. The TestResult exit code must equal the reference verdict FAIL > ERROR > TIMEOUT > ERROR(stuck) > ERROR(all reverted) > PASS computed from the collection of outcomes alone; through _main (stub forge) the process exit code is non-zero iff some selected test did not pass, also with a second contract in the project (processed before or after) whose only test passes, or whose setUp() reverts so that its test yields no result at all, and with a passing test run right before a test that ends in an exception.",
         "Trusted: the reference verdict function (DESIGN B.3) and the scripted solver in props/c05_verdict.py (seam: halmos.solve.PopenFuture replaced in the harness process; the subprocess layer itself is C17's subject). Completion orders are produced with real solver threads and delays, not with a controlled scheduler.",
         "DESIGN.md §4 C05",
         "A",
@@ -126,7 +126,7 @@ CHECKS = {
         "model_checking",
         "bounded-exhaustive enumeration of loop / limit programs x --loop, --width, --depth values x placements (regular test, setUp, invariant target call, second contract with the same test signature) x solver replies for stuck paths, each run end to end by the real run_contract and compared with a brute force on a reference EVM",
         "Programs: `i = 0; while (i < n) i++; if (i == K) Panic(1)` in two loop shapes (exit on the taken branch / back edge on the taken branch), nested loops, concrete trip counts 0..6, a concrete loop containing a symbolic branch, a four-path test, a test whose failing path is long, a test with an unsupported opcode on one branch; "
-        "configurations --loop 1,2,3,6, --width 1,2,3, --depth 40,100, a scripted solver answering unknown / garbage for the stuck-path query. Placements: regular check_* tests, setUp() (concrete and fresh-symbol trip counts), target functions spin/spind(uint256) called during invariant testing at depth 1..3, a loop on the stored value inside the invariant body itself (run once per frontier state: a cut in any state must be reported, also when the state explored last has none), two contracts "
+        "configurations --loop 1,2,3,6, --width 1,2,3, --depth 40,100, a scripted solver answering unknown / garbage for the stuck-path query. Placements: regular check_* tests, setUp() (concrete and fresh-symbol trip counts), the constructor of a test contract without setUp(), target functions spin/spind(uint256) called during invariant testing at depth 1..3, a loop on the stored value inside the invariant body itself (run once per frontier state: a cut in any state must be reported, also when the state explored last has none), two contracts "
         "with the same test signature run in one process (also two contracts of the same name in different files), two overloads of one test name in one contract, and a target function that stops at an unsupported opcode. Oracle per test: if the brute force on the reference EVM finds a failing input within the bounds and halmos reports PASS, a warning naming the limit must have been logged for that test (or bounded loops reported); tests with only concrete loop conditions must be FAIL and never "
         "carry a loop-bound warning; a path stopped at an unsupported opcode - in the test or in setUp(), at the top level or 1-3 call frames deep - must never leave the test a clean PASS; a symbolic setUp() loop of which exactly one successful path survives the cut must carry the loop-bound warning; in invariant mode the warning is demanded for every invariant test that relies on a cut frontier, whichever runs first.",
         "Trusted: mc/refevm.py, mc/invgen.py BFS, the program generators in props/c10_bounds.py, mc/solverstub.py. Warnings are read from the halmos loggers (rebinding of handlers in the harness process).",
@@ -148,7 +148,7 @@ CHECKS = {
         "exploration",
         "exhaustive sweep over ABI type trees x length-candidate configurations; halmos's calldata is flattened to per-byte atoms and decoded by an independent ABI decoder for every choice of candidate lengths; a reader program on the real SEVM must explore exactly the product of the candidate lists",
         "Every signature with 1-3 parameters over ABI type trees (base types uint256, uint8, int128, address, bool, bytes4, bytes32, bytes, string; T[], T[1], T[2], tuples; nesting <= 3) x 8 configurations "
-        "(--default-array-lengths / --default-bytes-lengths / --array-lengths incl. unordered lists and per-name overrides; named parameters and the unnamed ones solc emits as "") is turned into an ABI table by halmos.calldata.get_abi (as for a compiled artefact; multi-dimensional arrays of tuples included) and built by halmos.calldata.mk_calldata. The result is flattened to (constant byte | byte k of symbol s) atoms "
+        "(--default-array-lengths / --default-bytes-lengths / --array-lengths incl. unordered lists and per-name overrides; named parameters and the unnamed ones solc emits as "") is turned into an ABI table by halmos.calldata.get_abi (as for a compiled artefact; multi-dimensional arrays of tuples included; the qualified names p, p[i], p.m of the dynamic parameters are derived from the ABI item independently and select the --array-lengths entries, incl. entries for members of struct-array elements) and built by halmos.calldata.mk_calldata. The result is flattened to (constant byte | byte k of symbol s) atoms "
         "and, for every combination of candidate lengths, decoded by an ABI decoder written from the specification: offsets concrete and in range, every leaf a whole, distinct, otherwise unused symbol, leaf regions disjoint, every size "
         "symbol heading exactly one length word. The candidate lists halmos derives are compared with an independent reading of the configuration. A generated reader program (CALLDATALOAD of every length word) is run on the real SEVM, also with a second symbolic calldata registered on the same path and with the calldata created on a parent path that the executing path extends: the returned length tuples must be "
         "exactly the product of the candidate lists. Unsupported types (fixedMxN, ufixed, function) must raise.",
@@ -173,7 +173,7 @@ CHECKS = {
         "bounded-exhaustive enumeration of prank-family operation sequences, state-cheatcode cases and fresh-symbol requests (all widths), each run by the real SEVM.run and compared for every input / tape value with a reference EVM carrying Foundry's cheatcode state machine",
         "Prank: every sequence of length <= 3 (thorough 4) over prank(a), prank(a,o), startPrank(a), startPrank(a,o), stopPrank(), prank(x) with a symbolic address, CALL/STATICCALL to an observer that calls a second observer, CREATE of an observer, an intervening cheatcode call, a call to an account without code (it uses up a one-shot prank), a helper frame issuing its own prank and a call to an observer that returns on two paths (so that the pranking frame resumes twice); "
         " every observed (msg.sender, tx.origin) pair - in the callee, in the callee's callee and in constructors - must equal the reference state machine, and halmos may stop with an internal error only where Foundry rejects the sequence (prank over an active prank). State: deal, store/load, etch, warp, roll, fee, chainId, "
-        "coinbase, difficulty with concrete and symbolic arguments, issued from the root or a nested frame, then every relevant opcode read in the same and in another frame on the targeted and on another account; a block value set before a fork and again, differently, on each side; store/deal followed by (re-)etching and reads; vm.addr over valid secp256k1 keys (equal keys equal addresses, different keys different ones, the real address of a concrete key); deal/store/load also through a fresh symbolic address that vm.assume pins to an existing account. Fresh symbols: createUint/createInt/randomUint/randomInt for bit widths 1..256 (quick: 17 boundary widths), "
+        "coinbase, difficulty with concrete and symbolic arguments, issued from the root or a nested frame, then every relevant opcode read in the same and in another frame on the targeted and on another account; a block value set before a fork and again, differently, on each side; store/deal followed by (re-)etching and reads; a symbolic address looked at before and after the etch that creates the account it may denote; vm.addr over valid secp256k1 keys (equal keys equal addresses, different keys different ones, the real address of a concrete key); deal/store/load also through a fresh symbolic address that vm.assume pins to an existing account. Fresh symbols: createUint/createInt/randomUint/randomInt for bit widths 1..256 (quick: 17 boundary widths), "
         "bytes/string sizes {0,1,31,32,33,65}, all fixed-type creators, min/max pairs over boundary words: symbol width, zero/sign extension, range constraints, ABI layout and pairwise independence checked against an input-tape reference for every tape value of a grid.",
         "Trusted: mc/refcheats.py (Foundry prank rules, cheatcode effects, tape semantics of fresh values), mc/refevm.py, mc/symeval.py. DELEGATECALL under prank, console calls, balances above 2^128 and cheatcodes issued in frames that later revert are outside the alphabet.",
         "DESIGN.md §4 C14",
@@ -182,7 +182,7 @@ CHECKS = {
     "C15": (
         "model_checking",
         "bounded-exhaustive enumeration of generated invariant-testing projects (target function sets x invariants x depth 0..3 x filter combinations), each run end to end by the real run_contract; verdicts, cached frontier states and explored calls compared with a breadth-first search over all call sequences on a reference EVM",
-        "Projects: a test contract whose setUp() CREATEs 1-2 targets built from {inc, dec, set(uint8), rng(uint8), setb(uint8), step, pay, tick, own, bad, dbl} plus target functions whose names are reserved in the test contract only (check_in(), invariant_x(), setUp(), afterInvariant(), prove_it()) plus {setw, eq5, fwd} (a stored word compared with a constant by one function and forwarded into a nested call by another) (all subsets of size <= 2, selected / thorough all triples), invariants s != c, s <= 1, t <= 1, t <= block.timestamp (time never runs backwards along a sequence), --invariant-depth 0..3, and for a two-target project every "
+        "Projects: a test contract whose setUp() CREATEs 1-2 targets built from {inc, dec, set(uint8), rng(uint8), setb(uint8), step, pay, tick, own, bad, dbl} plus claim() (t = msg.sender: the sender filters still bind the stored sender in later calls), chain(x,z,w) (a four-link chain of constraints reaching the stored value), plus target functions whose names are reserved in the test contract only (check_in(), invariant_x(), setUp(), afterInvariant(), prove_it()) plus {setw, eq5, fwd} (a stored word compared with a constant by one function and forwarded into a nested call by another) (all subsets of size <= 2, selected / thorough all triples), invariants s != c, s <= 1, t <= 1, t <= block.timestamp (time never runs backwards along a sequence), --invariant-depth 0..3, and for a two-target project every "
         "combination (quick: up to two kinds at a time) of targetSenders/excludeSenders/targetContracts/excludeContracts/targetSelectors (incl. several entries for one address)/excludeSelectors. The reference runs the same bytecode on mc/refevm.py: BFS over all sequences of admitted calls with arguments, senders, "
         "msg.value and timestamp increments from small domains that are complete for this grammar. Oracles: an invariant broken by a sequence of <= d calls <=> halmos FAIL at depth d; every target state reached by the reference in k calls is an instance of a cached frontier state of depth <= k (storage terms and path "
         "conditions grounded over a finite assignment domain), so over-merging, an off-by-one in the depth loop or a dropped target shows up as an unrepresented state; every call recorded in the frontier call sequences is admitted by Foundry's filter rules; a reachable assertion failure inside a target must be reported and fail; every counterexample marked valid is turned back into a concrete call sequence (calldata, senders, values and the timeline from the model) and replayed on the reference EVM, where every call must succeed and the invariant must then fail.",
@@ -205,11 +205,11 @@ CHECKS = {
         "model_checking",
         "stateless, deviation/preemption-bounded exploration (CHESS style) of the real halmos/processes.py and solve.solve_low_level under a cooperative scheduler with simulated subprocesses; invariants evaluated on every complete schedule",
         "halmos/processes.py runs unmodified: threading.{Thread,Lock,RLock,Event,Condition}, concurrent.futures' Condition, the thread pool that shutdown(wait=False) uses, Popen, psutil and time are scheduler-owned shims (module attributes rebound in "
-        "the harness process); scheduling points are every shim operation plus every source line of the racy functions of processes.py (sys.settrace). Process exit, communicate()-timeout expiry, spawn failure and a process ignoring SIGTERM (the grace wait then raises psutil.TimeoutExpired and only kill() ends it) are environment choices. For 13 harnesses "
+        "the harness process); scheduling points are every shim operation plus every source line of the racy functions of processes.py (sys.settrace). Process exit, communicate()-timeout expiry, spawn failure and a process ignoring SIGTERM (the grace wait then raises psutil.TimeoutExpired and only kill() ends it) are environment choices. For 15 harnesses "
         "(submit racing shutdown(wait=False|True), two jobs with a graceful shutdown and an independent waiter, a job with a time limit, submit after shutdown, graceful then forceful shutdown (directly and through ExecutorRegistry.shutdown_all), two submitters, spawn failure, solve_low_level with 5 s / 300 ms / no limit "
-        "and with a concurrent early-exit shutdown, solve_end_to_end on a query whose first reply is sat with an abstract model so that a second, refined job is issued - alone and racing a shutdown) every schedule with <= 1 deviation (<= 2 for the two submit-vs-shutdown races; thorough: <= 2 for all small harnesses) from the default schedule is executed to completion. Invariants per execution: no deadlock or livelock, no uncaught exception, "
+        "and with a concurrent early-exit shutdown, solve_end_to_end on a query whose first reply is sat with an abstract model so that a second, refined job is issued - alone and racing a shutdown; a solver process with a child of its own that may exit at any moment - signalling it then raises NoSuchProcess - or ignore SIGTERM, under a racing shutdown and under a time limit) every schedule with <= 1 deviation (<= 2 for the two submit-vs-shutdown races and the two child-process harnesses; thorough: <= 2 for all small harnesses) from the default schedule is executed to completion. Invariants per execution: no deadlock or livelock, no uncaught exception, "
         "every accepted future completes and its waiters get the process output, a job whose limit expired surfaces as TimeoutExpired / `unknown` and never as a result, the limit handed to the process layer is the configured one, once shutdown() has returned "
-        "nobody is still or newly waiting on a live process, submit after shutdown is refused, no process is alive at the end. A free-running pass with real threads and real echo/sleep/sh subprocesses checks the simulated protocol.",
+        "nobody is still or newly waiting on a live process, submit after shutdown is refused, no process - and no child of a killed solver process - is alive at the end. A free-running pass with real threads and real echo/sleep/sh subprocesses checks the simulated protocol.",
         "Trusted: mc/sched.py (scheduler, shims, simulated Popen/psutil semantics incl. EBADF when cancel() closes the pipes under communicate()). Memory-model effects below Python statement granularity and real signal delivery latencies are not modelled. "
         "shutdown(wait=True) re-raising a job's own exception from _join() is tolerated (recorded, not asserted).",
         "DESIGN.md §4 C17",
@@ -221,7 +221,7 @@ CHECKS = {
         "For each option (quick: 12 representative incl. bool, countable, int, choice and every structured type; thorough: all 56 fields) every stack of <= 4 (thorough 5) layers over {config file, contract annotation, function annotation, "
         "command line}, each built by the real argparse/TOML parsers and setting the option or not with values that include the falsy ones (0, empty string, '*', false), is resolved and compared with the reference fold (source rank, then recency). "
         "--solver-command vs --solver over all source pairs and both application orders. Every value of the structured grammars (timeouts with units and fractions, error-code sets, array-length maps, CSV lists, trace events) round-trips through "
-        "unparse/parse and through the `python -m halmos.config` TOML emission + TomlParser; native (non-string) TOML values must mean what the same text means on the command line or be rejected; contract-level annotations are written in every documented layout (continuation lines, mid-line tags, several tags); 77 malformed strings must be rejected by the parser, the command line and the config file, and so must wrong-typed or out-of-choice config-file values of 12 plain options (a string for a flag, a list for an integer, an unknown layout / solver name). Annotation scoping: generated projects with every subset of "
+        "unparse/parse and through the `python -m halmos.config` TOML emission + TomlParser; native (non-string) TOML values must mean what the same text means on the command line or be rejected; contract-level annotations are written in every documented layout (continuation lines, mid-line tags, several tags); 77 malformed strings must be rejected by the parser, the command line and the config file, and so must wrong-typed or out-of-choice config-file values of 12 plain options (a string for a flag, a list for an integer, an unknown layout / solver name). The solver built for the setup phase gets setUp()'s own --solver-max-memory. Annotation scoping: generated projects with every subset of "
         "five annotation placements over two contracts that share function signatures x toml x command line are run through halmos.__main__._main (stub forge) and the configuration every setUp()/test actually receives - value and the source it is attributed to - is compared with the fold.",
         "Trusted: the reference fold (Appendix B.4) and the option value tables in props/c18_config.py. The scoping observation rebinds halmos.__main__.run_test/setup in the harness process (no source hook).",
         "DESIGN.md §4 C18",
